@@ -475,6 +475,7 @@ func ruleSCANSIZE(c *Ctx) {
 	startCond := f.Params[1]
 	n := 0
 	bad := token.NoPos
+	badSub := token.NoPos
 	seen := map[ssa.Value]bool{}
 	var walk func(v ssa.Value, d int)
 	walk = func(v ssa.Value, d int) {
@@ -493,6 +494,19 @@ func ruleSCANSIZE(c *Ctx) {
 				walk(e, d+1)
 			}
 		case *ssa.BinOp:
+			// the cursor advances by the width of the decoded rune: "cursor - k" is the start
+			// of the current symbol only where every symbol is one byte wide
+			if k, isConst := x.Y.(*ssa.Const); isConst && x.Op == token.SUB && k.Value != nil && k.Int64() != 0 && badSub == token.NoPos {
+				bytesOnly := false
+				for _, gc := range flattenConds(governing(x.Block())) {
+					if strings.HasSuffix(vpath(gc.V), ".ScanBytes") && gc.Pol {
+						bytesOnly = true
+					}
+				}
+				if !bytesOnly {
+					badSub = x.Pos()
+				}
+			}
 			walk(x.X, d+1)
 			walk(x.Y, d+1)
 		case *ssa.Convert:
@@ -510,10 +524,12 @@ func ruleSCANSIZE(c *Ctx) {
 	switch {
 	case n < 3:
 		c.Lost(rule, key, "the size result of Scan was not found")
+	case badSub != token.NoPos:
+		c.Bad(rule, key, badSub, "the size Scan returns is computed as cursor - constant outside bytes mode: the cursor advances by the width of the decoded rune, so before a 2-4 byte character the reported size (or the checkpoint offset) ends inside that character")
 	case bad != token.NoPos:
 		c.Bad(rule, key, bad, "the start-condition parameter flows into the size Scan returns: a token length is reported in units of start conditions (a token that ends at the end of input is cut short or becomes an invalid token)")
 	default:
-		c.Ok(rule, key, f.Pos(), "the returned size is made of 0, len(text) and cursor offsets only (%d values examined)", n)
+		c.Ok(rule, key, f.Pos(), "the returned size is made of 0, len(text) and cursor offsets only, none of them cursor - constant outside bytes mode (%d values examined)", n)
 	}
 }
 
